@@ -421,7 +421,10 @@ ARG_SCOPE = {
     "C02": ["parser._parser.parser", "parser._parser._ymd", "parser._parser.parserinfo"], "C15": ["parser._parser.parser"],
     "C03": ["relativedelta.relativedelta"], "C07": ["parser.isoparser.isoparser"], "C20": ["parser.isoparser.isoparser"],
     "C06": ["tz.tz.tzfile"], "C08": ["tz.tz.tzstr", "tz.tz.tzrange", "parser._parser._tzparser"], "C17": ["tz.tz.tzical", "tz.tz._tzicalvtz"],
-    "C04": ["tz._common._tzinfo", "tz._common.tzrangebase"], "C18": ["tz._factories._TzSingleton", "tz._factories._TzOffsetFactory", "tz._factories._TzStrFactory"],
+    "C04": ["tz._common._tzinfo", "tz._common.tzrangebase", "tz.tz.tzutc", "tz.tz.tzoffset", "tz.tz.tzlocal"],
+    "C05": ["tz.tz.tzfile", "tz.tz.tzlocal", "tz._common._tzinfo", "tz._common.tzrangebase"], "C09": ["relativedelta.relativedelta"],
+    "C11": ["rrule.rrulebase"], "C14": ["parser._parser.parser", "parser._parser._timelex", "parser._parser._ymd", "parser._parser.parserinfo"],
+    "C16": ["relativedelta.relativedelta", "_common.weekday"], "C18": ["tz._factories._TzSingleton", "tz._factories._TzOffsetFactory", "tz._factories._TzStrFactory"],
 }
 
 
@@ -463,3 +466,144 @@ def check_call_arguments(ctx, rule, prop):
                        detail="" if not bad else "`%s` is passed where %s expects `%s`" % (bad[0][1], callee.name, params[bad[0][0]]),
                        analysis="call site / signature agreement over resolved callees")
     return n_calls
+
+
+# ------------------------------------------------------------------ differential rules against the confirmed baseline
+def check_effect_table(ctx, rule, func, what, construct=None, **kw):
+    """The function's table of effects (stores, statements executed for their effect incl. yields, values a loop hands to
+    its next iteration, result) per consistent atom assignment is the confirmed one.  Loops contribute one symbolic
+    iteration."""
+    from . import summ, equiv
+    kw.setdefault("loops", "body")
+    kw.setdefault("alpha", "auto")
+    return summ.check_baseline(ctx, rule, func, what, construct=construct, outcome=equiv.loose_outcome, **kw)
+
+
+def presence_tests(fnode):
+    """{operand text: set of kinds} for the tests `X is None` / `X is not None` ('none') and bare truthiness `X` / `not X`
+    ('truthy') applied to a name or attribute chain X anywhere in the function's conditions."""
+    out = {}
+
+    def operand(e):
+        from .model import attr_chain
+        return ".".join(attr_chain(e)) if attr_chain(e) else None
+
+    def visit_test(e):
+        if isinstance(e, ast.UnaryOp) and isinstance(e.op, ast.Not):
+            return visit_test(e.operand)
+        if isinstance(e, ast.BoolOp):
+            for v in e.values:
+                visit_test(v)
+            return
+        if isinstance(e, ast.Compare) and len(e.ops) == 1 and isinstance(e.ops[0], (ast.Is, ast.IsNot)) and isinstance(e.comparators[0], ast.Constant) \
+                and e.comparators[0].value is None:
+            o = operand(e.left)
+            if o:
+                out.setdefault(o, set()).add("none")
+            return
+        o = operand(e) if isinstance(e, (ast.Name, ast.Attribute)) else None
+        if o:
+            out.setdefault(o, set()).add("truthy")
+    for n in walk_local(fnode):
+        if isinstance(n, (ast.If, ast.While, ast.IfExp, ast.Assert)):
+            visit_test(n.test)
+        elif isinstance(n, ast.BoolOp):
+            # `a or default` / `x and y` used as values test their leading operands for truthiness; a boolean formula
+            # (some operand is a negation or a comparison) tests all of them
+            formula = any(isinstance(v, (ast.Compare, ast.BoolOp)) or (isinstance(v, ast.UnaryOp) and isinstance(v.op, ast.Not)) for v in n.values)
+            for v in (n.values if formula else n.values[:-1]):
+                visit_test(v)
+        elif isinstance(n, ast.comprehension):
+            for c in n.ifs:
+                visit_test(c)
+    return out
+
+
+def check_presence_tests(ctx, rule, classes=(), functions=()):
+    """For an option or field where 0 / empty is a value of its own, `is None` and truthiness are different questions.
+    Every name / attribute tested in a function of the scope is tested in the same way(s) as in the confirmed baseline
+    (operands that no longer occur, or are new, are not compared)."""
+    from . import summ
+    prog = ctx.prog
+    funcs = list(functions)
+    for cq in classes:
+        c = prog.cls(cq, rule)
+        funcs += [f for _, f in sorted(c.methods.items())]
+    n = 0
+    for f in funcs:
+        try:
+            base_src = summ.baseline_body(f.qualname)
+        except AnalysisError:
+            continue        # a new function: nothing confirmed to compare with
+        base = ast.parse(base_src)
+        wrap = ast.FunctionDef(name="_b", args=f.node.args, body=base.body or [ast.Pass()], decorator_list=[], returns=None, type_comment=None, type_params=[])
+        old = presence_tests(wrap)
+        new = presence_tests(f.node)
+        for o in sorted(set(old) & set(new)):
+            n += 1
+            if old[o] == new[o]:
+                ctx.ob(rule, f, "`%s` is asked the same question as in the confirmed code (`is None` and truthiness differ for 0 / empty values)" % o, True,
+                       construct="%s: presence test of %s" % (f.name, o), analysis="differential test-kind table per operand")
+            else:
+                ctx.ob(rule, f, "`%s` is asked the same question as in the confirmed code (`is None` and truthiness differ for 0 / empty values)" % o, False,
+                       construct="%s: presence test of %s" % (f.name, o), detail="confirmed: %s; now: %s" % (sorted(old[o]), sorted(new[o])),
+                       analysis="differential test-kind table per operand")
+    ctx.stat(rule + ".operands", n)
+    return n
+
+
+# Small functions that are entirely about one property: their effect table is compared with the confirmed one.  Chosen by
+# reading (the whole function is the clause) and kept to code whose re-spellings the normal form sees through (string
+# formatting, loops rewritten as comprehensions and lock idioms are NOT covered by tables - those functions have their own
+# rules or none).
+R, P, T = "rrule.", "parser._parser.", "tz.tz."
+EFFECT_TABLES = {
+    "C01": [R + "rrule.__construct_byset", R + "rrule.__mod_distance", R + "weekday.__init__", R + "_iterinfo.ydayset", R + "_iterinfo.mdayset",
+            R + "_iterinfo.wdayset", R + "_iterinfo.ddayset", R + "_iterinfo.stimeset"],
+    "C02": [P + "parserinfo.convertyear", P + "parserinfo.validate", P + "_ymd.could_be_day", P + "_ymd.append", P + "parser._adjust_ampm", P + "parser._parsems",
+            P + "parser._to_decimal", P + "parser._parse_min_sec", P + "parser._assign_hms", P + "parserinfo.tzoffset", P + "parserinfo.utczone",
+            P + "parserinfo.hms", P + "parserinfo.ampm", P + "parserinfo.month", P + "parserinfo.weekday", P + "parserinfo.jump", P + "parserinfo.pertain"],
+    "C03": ["relativedelta.relativedelta.__radd__", "relativedelta.relativedelta.__rsub__", "relativedelta.relativedelta.__sub__", "relativedelta.relativedelta._set_months"],
+    "C04": [T + "tzutc.utcoffset", T + "tzutc.dst", T + "tzutc.fromutc", T + "tzoffset.utcoffset", T + "tzoffset.dst", T + "tzoffset.fromutc", T + "tzoffset.__init__",
+            T + "tzlocal.utcoffset", T + "tzlocal.dst", T + "tzlocal.tzname", T + "_tzicalvtz.utcoffset", T + "_tzicalvtz.dst", T + "_tzicalvtz.tzname"],
+    "C05": [T + "tzlocal._naive_is_dst", T + "tzlocal._isdst", T + "resolve_imaginary"],
+    "C06": [T + "tzfile._find_ttinfo", T + "tzfile._resolve_ambiguous_time", T + "_datetime_to_timestamp", T + "_get_supported_offset"],
+    "C07": ["parser.isoparser.isoparser._calculate_weekdate", "parser.isoparser.isoparser._parse_isodate", "parser.isoparser.isoparser.parse_isodate",
+            "parser.isoparser.isoparser.parse_isotime", "parser.isoparser.isoparser.parse_tzstr", "parser.isoparser._to_int", "parser.isoparser._takes_ascii.func"],
+    "C08": [T + "tzstr.__init__", T + "tzrange.transitions", T + "tzrange._dst_base_offset"],
+    "C09": ["relativedelta.relativedelta._set_months"],
+    "C10": [R + "rruleset._genitem.__init__", R + "rruleset._genitem.__next__", R + "rruleset._genitem.__lt__", R + "rruleset._genitem.__gt__", R + "rruleset._genitem.__eq__",
+            R + "rruleset._genitem.__ne__", R + "rruleset.rrule", R + "rruleset.rdate", R + "rruleset.exrule", R + "rruleset.exdate", R + "rrulebase._invalidate_cache"],
+    "C12": [R + "rrulebase.__getitem__", R + "rrulebase.__contains__", R + "rrulebase.count", R + "rrulebase.before", R + "rrulebase.after", R + "rrulebase.xafter",
+            R + "rrulebase.between"],
+    "C13": [R + "_rrulestr._handle_int", R + "_rrulestr._handle_int_list", R + "_rrulestr._handle_FREQ", R + "_rrulestr._handle_UNTIL", R + "_rrulestr._handle_WKST"],
+    "C14": [P + "_timelex.isword", P + "_timelex.isnum", P + "_timelex.isspace", P + "parser._could_be_tzname", P + "parser._ampm_valid", P + "parser._find_hms_idx",
+            P + "parser._parse_hms", P + "_ymd.resolve_ymd"],
+    "C15": [P + "parser._assign_tzname"],
+    "C16": ["relativedelta.relativedelta.__neg__", "relativedelta.relativedelta.__abs__", "relativedelta.relativedelta.__mul__", "relativedelta.relativedelta.__bool__",
+            "relativedelta.relativedelta.__eq__", "relativedelta.relativedelta.__hash__", "relativedelta.relativedelta.normalized", "relativedelta.relativedelta._fix",
+            "relativedelta.relativedelta.weeks", "_common.weekday.__eq__", "_common.weekday.__hash__", "_common.weekday.__call__"],
+    "C17": [T + "_tzicalvtz._find_compdt", T + "tzical.get", T + "tzical.keys", T + "_tzicalvtzcomp.__init__"],
+    "C18": [T + "tzutc.__eq__", T + "tzoffset.__eq__", T + "tzlocal.__eq__", T + "tzrange.__eq__", T + "tzfile.__eq__", T + "tzutc.__ne__", T + "tzoffset.__ne__", T + "tzlocal.__ne__",
+            T + "tzfile.__ne__", "tz._common.tzrangebase.__ne__"],
+    "C20": ["parser.isoparser.isoparser._calculate_weekdate", "parser.isoparser._to_int", "parser.isoparser._takes_ascii.func"],
+}
+
+
+def check_effect_tables(ctx, prop):
+    """Cxx.TABLE: see EFFECT_TABLES."""
+    from .model import mangle
+    n = 0
+    for q in EFFECT_TABLES.get(prop, []):
+        full = "dateutil." + q
+        f = ctx.prog.functions.get(full)
+        if f is None:
+            # private names are mangled in the model
+            parts = full.rsplit(".", 2)
+            if len(parts) == 3:
+                f = ctx.prog.functions.get("%s.%s.%s" % (parts[0], parts[1], mangle(parts[1], parts[2])))
+        if f is None:
+            raise AnalysisError(prop + ".TABLE", full, "anchor function not found")
+        check_effect_table(ctx, prop + ".TABLE", f, "what %s stores, does and returns under each condition is what was confirmed for it" % q.split(".", 1)[-1])
+        n += 1
+    return n
